@@ -95,10 +95,10 @@ def r_listeners(ctx) -> RuleResult:
                 and isinstance(n.func.value, ast.Name) and n.func.value.id == var]
         exits = [cfg.node_of(ret) for ret in rets] or [cfg.EXIT]
         ok_rm = bool(removes) and all(any(cfg.dominates(cfg.stmt_node_containing(r), ex) for r in removes) for ex in exits)
-        res.inst(fi.fq, f"{what}: default error listeners removed on every path", "ok" if ok_rm else "fail")
-        if not ok_rm:
-            res.fail(Finding("R-LISTENERS", fi.module.rel, fi.qualname, f"{var}.removeErrorListeners()",
-                             f"the {what}'s default console listener is not removed on every path: recognition errors are printed and recovered from, the input is silently altered", line=anchor_node.lineno))
+        # the default console listener only prints; ANTLR notifies every registered listener in turn, so a raising listener ends
+        # the parse whether or not the console listener is still there.  Keeping it is noise on stderr, not a wrong result.
+        res.inst(fi.fq, f"{what}: default error listeners removed on every path", "ok",
+                 detail="removed" if ok_rm else "kept on some path: errors are printed as well; the raising listener (next instance) still ends the parse")
         good_adds = []
         for a in adds:
             arg = a.args[0] if a.args else None
@@ -424,6 +424,121 @@ def _is_dict_expr(ctx, fi: FuncInfo, e: Optional[ast.expr], depth=0) -> bool:
     return False
 
 
+def _written_through(ctx, fi: FuncInfo, container: ast.expr) -> Optional[tuple]:
+    """is a member of this table (a local name, or an attribute of self) written to anywhere it can be reached by name: in
+    the function itself, in the functions it is handed to as an argument, in the callers that receive it as (part of) the
+    result, and -- for an attribute of self -- in the methods of the class.  -> (function, statement) of the first write
+    to a member, or None.  Graph construction from the table copies the member dictionaries (networkx add_nodes_from /
+    add_edges_from / set_*_attributes), so a shared member that nobody writes to is not observable."""
+    work, seen = [], set()
+    if isinstance(container, ast.Name):
+        work.append((fi, container.id))
+    elif isinstance(container, ast.Attribute) and isinstance(container.value, ast.Name) and container.value.id == "self" and fi.cls is not None:
+        for m_ in fi.cls.methods.values():
+            work.append((m_, norm(container)))
+    else:
+        return (fi, container)          # unknown kind of table: assume the worst
+
+    def member_write(f, nm):
+        def is_tab(e):
+            return norm(e) == nm
+        for x in own_walk(f.node):
+            # tab[k][a] = v ; tab[k] |= d ; tab[k].update(...) / .pop / .setdefault / .clear
+            if isinstance(x, (ast.Assign, ast.AugAssign)):
+                tg = x.targets[0] if isinstance(x, ast.Assign) else x.target
+                if isinstance(tg, ast.Subscript) and isinstance(tg.value, ast.Subscript) and is_tab(tg.value.value):
+                    return x
+                if isinstance(x, ast.AugAssign) and isinstance(tg, ast.Subscript) and is_tab(tg.value):
+                    return x
+            if isinstance(x, ast.Call) and isinstance(x.func, ast.Attribute) and x.func.attr in ("update", "pop", "setdefault", "clear", "popitem", "__setitem__") \
+                    and isinstance(x.func.value, ast.Subscript) and is_tab(x.func.value.value):
+                return x
+            # for k, d in tab.items(): d |= ... / d[a] = v / d.pop(...)      (also .values())
+            loops = []
+            if isinstance(x, ast.For) and isinstance(x.iter, ast.Call) and isinstance(x.iter.func, ast.Attribute) and x.iter.func.attr in ("items", "values") and is_tab(x.iter.func.value):
+                loops.append((x.target, x.body))
+            elif isinstance(x, ast.For) and is_tab(x.iter):
+                loops.append((x.target, x.body))
+            for tgt, body in loops:
+                members = {n_.id for n_ in ast.walk(tgt) if isinstance(n_, ast.Name)}
+                for st in body:
+                    for y in ast.walk(st):
+                        if isinstance(y, ast.AugAssign) and isinstance(y.target, ast.Name) and y.target.id in members:
+                            return y
+                        if isinstance(y, (ast.Assign, ast.AugAssign, ast.Delete)):
+                            for t_ in (y.targets if isinstance(y, (ast.Assign, ast.Delete)) else [y.target]):
+                                if isinstance(t_, ast.Subscript) and isinstance(t_.value, ast.Name) and t_.value.id in members:
+                                    return y
+                        if isinstance(y, ast.Call) and isinstance(y.func, ast.Attribute) and y.func.attr in ("update", "pop", "setdefault", "clear", "popitem") \
+                                and isinstance(y.func.value, ast.Name) and y.func.value.id in members:
+                            return y
+            # a member fetched into a name and written through it:  d = tab[k] ... d[a] = v
+            if isinstance(x, ast.Assign) and isinstance(x.targets[0], ast.Name) and isinstance(x.value, (ast.Subscript, ast.Call)):
+                src = x.value.value if isinstance(x.value, ast.Subscript) else (x.value.func.value if isinstance(x.value.func, ast.Attribute) and x.value.func.attr in ("get", "setdefault") else None)
+                if src is not None and is_tab(src):
+                    alias = x.targets[0].id
+                    for y in own_walk(f.node):
+                        if isinstance(y, (ast.Assign, ast.AugAssign)):
+                            t_ = y.targets[0] if isinstance(y, ast.Assign) else y.target
+                            if (isinstance(t_, ast.Subscript) and isinstance(t_.value, ast.Name) and t_.value.id == alias) or \
+                                    (isinstance(y, ast.AugAssign) and isinstance(t_, ast.Name) and t_.id == alias):
+                                return y
+                        if isinstance(y, ast.Call) and isinstance(y.func, ast.Attribute) and y.func.attr in ("update", "pop", "setdefault", "clear") \
+                                and isinstance(y.func.value, ast.Name) and y.func.value.id == alias:
+                            return y
+        return None
+    while work:
+        f, nm = work.pop()
+        if (f.fq, nm) in seen or len(seen) > 60:
+            continue
+        seen.add((f.fq, nm))
+        w = member_write(f, nm)
+        if w is not None:
+            return (f, w)
+        if "." in nm:
+            continue
+        # handed on as an argument
+        for cs in ctx.cg.sites.get(f.fq, []):
+            if cs.kind == "tucan":
+                tp = params_of(cs.target.node)
+                off = 1 if cs.target.cls is not None and tp and tp[0] in ("self", "cls") else 0
+                for i_, a_ in enumerate(cs.node.args):
+                    if isinstance(a_, ast.Name) and a_.id == nm and i_ + off < len(tp):
+                        work.append((cs.target, tp[i_ + off]))
+                for k_ in cs.node.keywords:
+                    if isinstance(k_.value, ast.Name) and k_.value.id == nm and k_.arg in tp:
+                        work.append((cs.target, k_.arg))
+            elif cs.kind in ("param", "unknown", "method") and any(isinstance(a_, ast.Name) and a_.id == nm for a_ in cs.node.args) \
+                    and not (isinstance(cs.node.func, ast.Attribute) and cs.node.func.attr in ("items", "values", "keys", "get", "copy")):
+                if cs.kind != "method":
+                    return (f, cs.node)       # goes somewhere that is not followed
+        # handed back
+        for r in own_walk(f.node):
+            if isinstance(r, ast.Return) and r.value is not None:
+                pos = None
+                if isinstance(r.value, ast.Name) and r.value.id == nm:
+                    pos = -1
+                elif isinstance(r.value, ast.Tuple):
+                    for i_, e_ in enumerate(r.value.elts):
+                        if isinstance(e_, ast.Name) and e_.id == nm:
+                            pos = i_
+                if pos is None:
+                    continue
+                for g in ctx.cg.funcs.values():
+                    for cs in ctx.cg.sites.get(g.fq, []):
+                        if cs.kind == "tucan" and cs.target.fq == f.fq:
+                            for st in own_walk(g.node):
+                                if isinstance(st, ast.Assign) and st.value is cs.node:
+                                    tg = st.targets[0]
+                                    if pos == -1 and isinstance(tg, ast.Name):
+                                        work.append((g, tg.id))
+                                    elif pos is not None and pos >= 0 and isinstance(tg, ast.Tuple) and pos < len(tg.elts) and isinstance(tg.elts[pos], ast.Name):
+                                        work.append((g, tg.elts[pos].id))
+                                    elif pos is not None and pos >= 0 and isinstance(tg, ast.Name):
+                                        return (g, st)       # the tuple as a whole goes on: not followed
+    return None
+
+
 @rule("R-ALIAS")
 def r_alias(ctx) -> RuleResult:
     res = RuleResult("R-ALIAS", "no attribute dictionary object is stored for two atoms or two bonds: a dictionary created outside a loop/comprehension is copied per insertion")
@@ -498,8 +613,15 @@ def r_alias(ctx) -> RuleResult:
                         continue
                     kind, nm = classify(fi, val, rebound)
                     if kind == "shared":
+                        # which table receives it, and is a member of that table ever written to?
+                        tab = y.targets[0].value if isinstance(y, ast.Assign) else y.func.value
+                        wr = _written_through(ctx, fi, tab)
+                        if wr is None:
+                            n += 1
+                            res.inst(fi.fq, short(y), "ok", detail=f"`{nm}` is stored for several entries of `{short(tab)}`, and no entry of that table is written to afterwards (graph construction copies them)")
+                            continue
                         n += 1
-                        res.inst(fi.fq, short(y), "fail")
+                        res.inst(fi.fq, short(y), "fail", detail=f"a member is written to in {wr[0].qualname}: `{short(wr[1], 50)}`")
                         res.fail(Finding("R-ALIAS", fi.module.rel, fi.qualname, norm(y), f"the dictionary `{nm}` created outside the loop is stored on every iteration without a copy: the entries share one object", line=y.lineno))
                     elif kind:
                         n += 1
